@@ -46,9 +46,11 @@ def fixed_format(type_name, file, impl, fields, bufname="buf", wrap=None):
             reads.append(VOpaque("read", [k, t]))
         return VOk(wrap(reads) if wrap else VStruct(type_name.split("::")[-1], {f: r for (f, _t), r in zip(fields, reads)}))
 
+    SZ = {"ProofEvaluations::SIZE": 480, "BlsScalar::SIZE": 32, "Commitment::SIZE": 48, "G1Affine::SIZE": 48}
     unit(f"serial.{type_name}.to_bytes", file, impl + "::to_bytes", [("self", sym("self"))], c_to_bytes, out_w,
-         trace_only=True, tracked=("writer",))
-    unit(f"serial.{type_name}.from_bytes", file, impl + "::from_bytes", [("buf", sym("buf"))], c_from_bytes, out_r)
+         trace_only=True, tracked=("writer",), consts=SZ)
+    u_ = unit(f"serial.{type_name}.from_bytes", file, impl + "::from_bytes", [("buf", sym("buf"))], c_from_bytes, out_r, consts=SZ)
+    u_.helper_files = ["src/proof_system/linearization_poly.rs", "src/proof_system/proof.rs", "src/proof_system/widget.rs"]
 
 
 COMMS = ["a_comm", "b_comm", "c_comm", "d_comm", "z_comm", "t_low_comm", "t_mid_comm", "t_high_comm", "t_fourth_comm",
@@ -701,3 +703,38 @@ u.extra_contracts = {"G1Affine::from_slice": lambda it, recv, a: VOpaque("G1Affi
                      "Commitment": lambda it, recv, a: VOpaque("Self", list(a)), "G1Affine::identity": lambda it, recv, a: VOpaque("G1Affine::identity")}
 u = unit("serial.Commitment.to_bytes", "src/commitment_scheme/kzg10/commitment.rs", "<Commitment as Serializable<{G1Affine::SIZE}>>::to_bytes", [("self", sym("self"))],
          lambda it, recv, a: VOpaque("to_bytes", [Sym("self.0")]), lambda res, args, ctx: {"result": res})
+
+
+# ---- Evaluations::from_slice (C16 / C17): domain header, canonical-domain check, EXACT length check, and only then the element decoding
+def c_evaluations_from_slice(it, recv, a):
+    """read the 172-byte domain; InvalidData unless its size fits usize, is a power of two and the domain equals the canonical
+    EvaluationDomain::new(size); InvalidData unless exactly size * 32 bytes follow (checked BEFORE anything is decoded or reserved);
+    then every 32-byte chunk goes through the canonical scalar decoder"""
+    b = a[0]
+    X = it.ctx.exits
+    it.ctx.event("read", 0, "EvaluationDomain")
+    X.append(("try", "read 0 (EvaluationDomain) fails => Err"))
+    dom = VOpaque("read", [0, "EvaluationDomain"])
+    size = Sym(canon(dom) + ".size")
+    X.append(("try", "usize::try_from(domain.size) fails => Err(InvalidData)"))
+    X.append(("try", "EvaluationDomain::new fails => Err"))
+    X.append(("err_if", VOpaque("or", [VOpaque("ne", [VOpaque("checked_next_power_of_two", [size]), VOpaque("Some", [size])]),
+                                         VOpaque("ne", [VOpaque("EvaluationDomain::new", [size]), dom])]), "Error::InvalidData"))
+    esz = VOpaque("checked_mul", [size, 32])
+    X.append(("try", f"{canon(esz)} is None => Err(Error::InvalidData)"))
+    X.append(("err_if", VOpaque("ne", [VOpaque("len", [Sym("bytes")]), VOpaque("some_of", [esz])]), "Error::InvalidData"))   # len of the bytes left after read 0
+    X.append(("try", "collected(map_each(chunks(bytes, int:32), BlsScalar::from_slice(chunks(bytes, int:32)[*])))"))   # a non-canonical chunk => Err
+    return VOk(VOpaque("Evaluations::from_vec_and_domain", [VOpaque("havoc:evals"), dom]))
+
+
+u = unit("serial.Evaluations.from_slice", "src/fft/evaluations.rs", "Evaluations::from_slice", [("bytes", sym("bytes"))], c_evaluations_from_slice,
+         lambda res, args, ctx: {"reads": list(ctx.log), "exits": list(ctx.exits)}, consts={"BlsScalar::SIZE": 32})
+u.track_allocs = True
+u.extra_contracts = dict(RD)
+u.extra_contracts.update({
+    "usize::try_from": lambda it, recv, a: VOpaque("usize::try_from", list(a)),
+    ".map_err": lambda it, recv, a: ("fallible", "usize::try_from(domain.size) fails => Err(InvalidData)", recv.args[0]) if isinstance(recv, VOpaque) and recv.name == "usize::try_from" else NotImplemented,
+    "EvaluationDomain::new": lambda it, recv, a: ("fallible", "EvaluationDomain::new fails => Err", VOpaque("EvaluationDomain::new", list(a))),
+    "BlsScalar::from_slice": lambda it, recv, a: VOpaque("BlsScalar::from_slice", list(a)),
+    "Evaluations::from_vec_and_domain": lambda it, recv, a: VOpaque("Evaluations::from_vec_and_domain", list(a)),
+})
